@@ -24,6 +24,7 @@ def run(chk, program, tier):
     I.no_global_write(chk, program)
     I.instance_state(chk, program)
     I.state_deps(chk, program)
+    I.no_decorators(chk, program)
     # FRESH-MSG: reuse GEN-DEC's return obligations
     before = len(chk.obs)
     R.gen_dec(chk, program, slots=[], rule='FRESH-MSG', with_msg=False, with_flow=True)
